@@ -312,6 +312,91 @@ def gen_cls(ctx, cases, tags):
                 cases.append("cls %s v %d %s" % (f.name, n, " ".join(map(f.h, v)))); tags.append("cls/fvector")
 
 
+def round_arg(f, rng, ity, E):
+    """a boundary-directed argument for round/trunc: integer + {0, 1/2, +-eps, +-ulp, ...} or a random value"""
+    mach = Fraction(2) ** (1 - f.prec)
+    bases = [0, 1, 2, 3, 7, 10, 100, 12345, 2 ** 20, 2 ** 24 - 1, 2 ** 24, 2 ** 31 - 1, 2 ** 31, 2 ** 32 - 1, 2 ** 32, 2 ** 53, 2 ** 63 - 1024, 2 ** 63]
+    if rng.random() < 0.85:
+        base = rng.choice(bases) if rng.random() < 0.4 else rng.randint(0, 50)
+        sg = 1 if (ity[0] == "u" and rng.random() < 0.7) else rng.choice([1, 1, -1])
+        fr = rng.choice([Fraction(0), Fraction(1, 2), Fraction(1, 4), Fraction(3, 4), mach, -mach, E, -E, E * base, -E * base,
+                         Fraction(1, 2) + E / 2, Fraction(1, 2) - E / 2, Fraction(1, 2) + mach, Fraction(1, 2) - mach,
+                         Fraction(rng.random()), Fraction(999, 1000), 1 - E, 1 - mach * 4])
+        try:
+            v = f.bits(sg * (Fraction(base) + fr))
+        except OverflowError:
+            v = f.bits(float(base))
+        if f.isfin(v):
+            v = f.step(v, rng.choice([0, 0, 0, 1, -1, 2, -2]))
+        return v
+    return rnd_value(f, rng)
+
+
+def gen_api(ctx, cases, tags):
+    """entry points with defaulted template / function arguments, integral_constant overloads, further argument types
+    (API-coverage audit, mutants/C17/API_COVERAGE.md)"""
+    rng = ctx.rng("api")
+    quick = ctx.quick
+    for n in range(0, 13):
+        cases.append("icfact %d" % n); tags.append("icfact")
+    for n in range(-1, 13):
+        for k in range(-1, 14):
+            cases.append("icbinom %d %d" % (n, k)); tags.append("icbinom")
+    for t in ("i32", "u32", "i64"):
+        for v in (0, 1, 5, 2147483647) + ((-1, -7) if t[0] == "i" else ()):
+            cases.append("icls %s %d" % (t, v)); tags.append("icls")
+    for v in range(-128, 128):
+        cases.append("isign i8 %d" % v); tags.append("isign/narrow")
+    for v in range(0, 256, 5):
+        cases.append("isign u8 %d" % v); tags.append("isign/narrow")
+    for v in (-32768, -32767, -1, 0, 1, 32767):
+        cases.append("isign i16 %d" % v); tags.append("isign/narrow")
+    for v in (0, 1, 65535):
+        cases.append("isign u16 %d" % v); tags.append("isign/narrow")
+    for t in ITYPES:
+        for E in "luh":
+            for m in range(-3 if ITYPES[t][0] else 0, 4):
+                for pw in list(range(0, 24, 1)) + ([] if E == "u" else [-1, -2, -5]):
+                    if not crashes_impl("ipow", t, m, pw):
+                        cases.append("ipowx %s %s %d %d" % (t, E, m, pw)); tags.append("ipowx")
+    for f in (F32, F64):
+        cases.append("defeps %s" % f.name); tags.append("defeps")
+        mach = 2.0 ** (1 - f.prec)
+        ev = [f.bits(8 * mach), f.bits(1e-6), 0, f.bits(1e-3), f.bits(0.5), f.bits(mach)]
+        defe = {"w": f.bits(8 * mach), "s": f.bits(8 * mach), "a": f.bits(1e-6)}
+        for i in range(500 if quick else 8000):
+            e = rng.choice(ev)
+            st = "wsa"[i % 3]
+            a = rnd_value(f, rng)
+            z = rng.random()
+            if z < 0.7:
+                b = near_partner(f, rng, st, defe[st] if rng.random() < 0.8 else e, a)
+            elif z < 0.85:
+                b = f.step(a, rng.choice([0, 1, -1, 3, -9])) if f.isfin(a) else a
+            else:
+                b = rnd_value(f, rng)
+            if rng.random() < 0.5:
+                a, b = b, a
+            cases.append("cmpd %s %s %s %s" % (f.name, f.h(e), f.h(a), f.h(b))); tags.append("cmpd")
+        for i in range(1200 if quick else 20000):
+            op = "round" if i % 2 else "trunc"
+            ity = rng.choice(["i32", "i32", "i64", "u32", "u64"])
+            sel = "crn"[i % 3]
+            x = rng.choice("wsa") if sel == "c" else rng.choice("zidu") if sel == "r" else "-"
+            st = x if sel == "c" else "w"
+            if rng.random() < 0.5:
+                e, E = "-", f.frac(defe[st])
+            else:
+                eb = rng.choice(ev); e, E = f.h(eb), f.frac(eb)
+            v = round_arg(f, rng, ity, E)
+            cases.append("rto %s %s %s %s %s %s %s" % (op, f.name, ity, sel, x, e, f.h(v))); tags.append("rto/%s/%s" % (op, sel))
+        pool = [f.nan, f.inf, f.inf | f.sign, 0, f.one, f.maxfin, f.bits(-2.5)]
+        for n in (1, 2, 3):
+            for _ in range(25):
+                v = [rng.choice(pool) if rng.random() < 0.4 else f.one for _ in range(2 * n)]
+                cases.append("cls %s vc %d %s" % (f.name, n, " ".join(map(f.h, v)))); tags.append("cls/fvector-complex")
+
+
 def gen(ctx):
     cases, tags = [], []
     cp = os.path.join(V.VERIF, "corpus", "C17", "cases.txt")
@@ -322,6 +407,7 @@ def gen(ctx):
                 cases.append(l); tags.append("corpus")
     gen_int(ctx, cases, tags)
     gen_cls(ctx, cases, tags)
+    gen_api(ctx, cases, tags)
     gen_cmp(ctx, cases, tags)
     gen_round(ctx, cases, tags)
     return cases, tags
@@ -377,6 +463,8 @@ def sig_of(case, asfound_obs, impl_obs=None):
         return "C17:cmp:%s" % {"w": "relativeWeak", "s": "relativeStrong", "a": "absolute"}[t[2]]
     if op == "vcmp":
         return "C17:vcmp"
+    if op == "rto":
+        return sig_of(" ".join([t[1], t[2], t[3], "w", "z", "0", t[7]]), asfound_obs, impl_obs).replace("C17:", "C17:defaulted-") if True else None
     if op in ("round", "trunc"):
         f = FMTS[t[1]]
         v = int(t[6], 16)
@@ -398,8 +486,10 @@ def sig_of(case, asfound_obs, impl_obs=None):
 def describe(case):
     """human-readable decoding of the bit patterns of a case (for replay files)"""
     t = case.split()
-    if t[0] in ("ipow", "fact", "binom", "isign"):
+    if t[0] in ("ipow", "fact", "binom", "isign", "icfact", "icbinom", "icls", "ipowx"):
         return case
+    if t[0] == "rto":
+        t = [t[0] + "/" + t[1]] + t[2:]
     f = FMTS.get(t[1])
     out = []
     for x in t[2:]:
@@ -454,7 +544,12 @@ def judge(ctx, cases, tags, io, mo, report=True):
     return nviol, ndis, nub
 
 
+def params_hook(ctx):
+    V.sh([sys.executable, os.path.join(V.VERIF, "tools", "extract_params.py"), ctx.repo], check=True)
+
+
 def run(ctx):
+    ctx.params_hook = params_hook
     V.coq_stage(ctx)
     model, impl, impl_san = build(ctx)
     cases, tags = gen(ctx)
@@ -497,7 +592,9 @@ def run(ctx):
     distinct = len(set(c for c, tg in zip(cases, tags) if not tg.startswith("cls") and any(re.search(r"[1-9a-f]", x) for x in c.split()[3:])))
     ctx.coverage.update({
         "evaluations": len(cases), "distinct_nontrivial": distinct,
-        "rule": "cases = corpus + exhaustive integer scopes (binomial n<=70 all k, power |m|<=12 |p|<=70 (quick: p>=-12), factorial n<=70; int32/uint32/int64/uint64) "
+        "rule": "cases = corpus + API-audit streams (defaulted epsilon / compare style / rounding style overloads of eq..le, round, trunc and FloatCmpOps; DefaultEpsilon "
+                "values; integral_constant overloads of factorial / binomial and Factorial<m>; power with long / unsigned / short exponents; sign of narrow types; "
+                "integer and FieldVector<complex> classification; std::vector / FieldVector<T,1> gt/lt/ge/le) + exhaustive integer scopes (binomial n<=70 all k, power |m|<=12 |p|<=70 (quick: p>=-12), factorial n<=70; int32/uint32/int64/uint64) "
                 "+ boundary bases for power + classifier pools with NaN/inf in every position + special x special float pairs "
                 "+ seeded boundary-directed float pairs (partner constructed at the tolerance boundary +- few ulps) for float and double, 3 styles "
                 "+ constructed round/trunc arguments (integer + {0, 1/2, +-eps, +-ulp, ...}) x 4 rounding styles x 3 compare styles x 4 integer types; "
